@@ -142,7 +142,25 @@ def falls_off_the_end(func):
 ITERATOR_MAKERS = {'chain', 'map', 'filter', 'zip', 'iter', 'reversed', 'enumerate', 'islice', 'from_iterable', 'takewhile', 'dropwhile', 'accumulate', 'starmap', 'groupby'}
 
 
-def iterators_consumed_twice(func):
+_GENERATOR_FUNCS = {}
+
+
+def generator_function_names(repo):
+    """names of package functions / methods whose body contains yield (calling them makes a one-shot iterator)"""
+    key = id(repo)
+    if key not in _GENERATOR_FUNCS:
+        out = set()
+        for tree in repo.trees.values():
+            for fn in [x for x in ast.walk(tree) if isinstance(x, ast.FunctionDef)]:
+                own = [y for y in ast.walk(fn) if isinstance(y, (ast.Yield, ast.YieldFrom))]
+                nested = {id(y) for g in ast.walk(fn) if isinstance(g, (ast.FunctionDef, ast.Lambda)) and g is not fn for y in ast.walk(g) if isinstance(y, (ast.Yield, ast.YieldFrom))}
+                if any(id(y) not in nested for y in own):
+                    out.add(fn.name)
+        _GENERATOR_FUNCS[key] = out
+    return _GENERATOR_FUNCS[key]
+
+
+def iterators_consumed_twice(func, repo=None):
     """name = <generator expression> / chain(...) / map(...) / zip(...) / ... ; the name is then consumed at two places that
     can both run (or at one place inside a loop the assignment is outside of): the second consumer sees an EMPTY
     iterator.  Uses in the two branches of one `if` exclude each other.  -> [(name, line of the second use)]"""
@@ -163,8 +181,9 @@ def iterators_consumed_twice(func):
         if not (isinstance(a, ast.Assign) and len(a.targets) == 1 and isinstance(a.targets[0], ast.Name)):
             continue
         v = a.value
-        maker = isinstance(v, ast.GeneratorExp) or (isinstance(v, ast.Call) and ((isinstance(v.func, ast.Name) and v.func.id in ITERATOR_MAKERS) or
-                                                                                  (isinstance(v.func, ast.Attribute) and v.func.attr in ITERATOR_MAKERS)))
+        gens = generator_function_names(repo) if repo is not None else set()
+        maker = isinstance(v, ast.GeneratorExp) or (isinstance(v, ast.Call) and ((isinstance(v.func, ast.Name) and (v.func.id in ITERATOR_MAKERS or v.func.id in gens)) or
+                                                                                  (isinstance(v.func, ast.Attribute) and (v.func.attr in ITERATOR_MAKERS or v.func.attr in gens))))
         if not maker:
             continue
         name = a.targets[0].id
